@@ -310,6 +310,7 @@ func runC10(c *eng.Ctx) {
 	cr := &caseRunner{c: c, prop: "C10"}
 	defer func() {
 		RunEqualValues(c, "C10", cr.next)
+		RunValueDisposables(c, "C10", cr.next)
 		if C10Overlap != nil {
 			C10Overlap(c, cr.next)
 		}
